@@ -332,7 +332,7 @@ impl Property for C11 {
         };
         let small2 = Plan {
             name: "small2",
-            kind: PlanKind::Enumerate { limit: 30_000_000 },
+            kind: PlanKind::Enumerate { limit: 6_000_000 },
             knobs: Knobs { max_ops: 2, small: true, ..Default::default() },
         };
         match tier {
